@@ -273,6 +273,10 @@ func (d *Data) handleProximity(ctx *datastore.VersionedCtx, w http.ResponseWrite
 		defer server.ThrottledOpDone()
 	}
 
+	if len(parts) < 6 {
+		server.BadRequest(w, r, "expect two labels after the proximity endpoint")
+		return
+	}
 	label1, err := strconv.ParseUint(parts[4], 10, 64)
 	if err != nil {
 		server.BadRequest(w, r, err)
